@@ -96,7 +96,8 @@ func Start(t *testing.T, id, level string) *Run {
 		}
 	}
 	r.deadline = r.start.Add(time.Duration(budget) * time.Second)
-	files := []string{filepath.Join(VerifDir(), "known_findings.json")}
+	// known_findings.json plus per-property files known_findings_<ID>.json (large lists)
+	files := []string{filepath.Join(VerifDir(), "known_findings.json"), filepath.Join(VerifDir(), "known_findings_"+id+".json")}
 	if x := os.Getenv("VERIF_EXTRA_FINDINGS"); x != "" {
 		files = append(files, x) // development aid: proposed findings not yet merged
 	}
